@@ -151,7 +151,7 @@ def marking_equations(ck, an, want: set):
     neg_raises = []
     for r in raises_in(fa):
         sg = fa.syntactic_guards(r)
-        if any(p[0] == "rel" and p[1] == "<" and "_holdings_margins" in p[2] for p in sg):
+        if any(p[0] == "rel" and p[1] == "<" and len(p[4].t) == 1 and "_holdings_margins" in p[2] and p[4].const_value() is None for p in sg):
             neg_raises.append(r)
     snap = {}
 
